@@ -156,6 +156,80 @@ impl Service<Request<Bytes>> for CountingEcho {
     }
 }
 
+/// inner service with state: logs the `tag` header of every request it sees, answers with the log length before
+#[derive(Clone)]
+struct LogSvc(Arc<Mutex<Vec<u64>>>);
+impl Service<Request<Bytes>> for LogSvc {
+    type Response = Response<Bytes>;
+    type Error = std::convert::Infallible;
+    type Future = Pin<Box<dyn Future<Output = Result<Self::Response, Self::Error>> + Send>>;
+    fn poll_ready(&mut self, _: &mut Context<'_>) -> Poll<Result<(), Self::Error>> {
+        Poll::Ready(Ok(()))
+    }
+    fn call(&mut self, req: Request<Bytes>) -> Self::Future {
+        let tag = req.headers().get("tag").and_then(|s| s.parse::<u64>().ok()).unwrap_or(u64::MAX);
+        let mut g = self.0.lock().unwrap();
+        let before = g.len();
+        g.push(tag);
+        Box::pin(async move { Ok(Response::new(Bytes::from(before.to_string()))) })
+    }
+}
+
+/// C20 over whole HISTORIES: one allow-list layer over a stateful service, a sequence of requests sent
+/// alternately through two clones of the layered service; the service's log, every response and the
+/// final state must be the model's `authRun` (theorem `C20_history`).
+fn auth_histories(run: &mut Run, rng: &mut Rng, rt: &tokio::runtime::Runtime) -> anyhow::Result<()> {
+    let n = if run.quick() { 400 } else { 20_000 };
+    for _ in 0..n {
+        let universe = 2 + rng.below(12);
+        let len = rng.below(8) as usize;
+        let list: Vec<[u8; 32]> = (0..len).map(|_| pid(rng.below(universe)).0).collect();
+        let k = rng.below(14) as usize + 1;
+        let reqs: Vec<(Option<[u8; 32]>, u64)> = (0..k)
+            .map(|i| {
+                let s = match rng.below(5) {
+                    0 => None,
+                    _ => Some(pid(rng.below(universe + 2)).0),
+                };
+                (s, 1 + i as u64 * 7 + rng.below(5))
+            })
+            .collect();
+        let log = Arc::new(Mutex::new(Vec::<u64>::new()));
+        let layer = RequireAuthorizationLayer::new(AllowedPeers::new(list.iter().map(|x| PeerId(*x))));
+        let mut a = layer.clone().layer(LogSvc(log.clone()));
+        let mut b = a.clone();
+        let mut resp = vec![];
+        rt.block_on(async {
+            for (i, (sender, tag)) in reqs.iter().enumerate() {
+                let mut req = Request::new(Bytes::from_static(b"h")).with_header("tag", tag.to_string());
+                if let Some(s) = sender {
+                    req = req.with_extension(PeerId(*s));
+                }
+                let svc = if i % 2 == 0 { &mut a } else { &mut b };
+                let r = svc.ready().await.unwrap().call(req).await.unwrap();
+                let t = std::str::from_utf8(r.body()).ok().and_then(|x| x.parse::<u64>().ok()).unwrap_or(0);
+                resp.push(format!("{}/{}", r.status().to_u16(), t));
+            }
+        });
+        let seen = log.lock().unwrap().clone();
+        let show = |v: &Vec<u64>| if v.is_empty() { "-".to_string() } else { v.iter().map(|x| x.to_string()).collect::<Vec<_>>().join(",") };
+        let op = format!(
+            "auth.history list={} reqs={}",
+            if list.is_empty() { "-".to_string() } else { list.iter().map(hex::encode).collect::<Vec<_>>().join(",") },
+            reqs.iter().map(|(s, t)| format!("{}:{}", s.map(hex::encode).unwrap_or_else(|| "none".into()), t)).collect::<Vec<_>>().join(";")
+        );
+        let out = format!("resp={} seen={} log={}", resp.join(","), show(&seen), show(&seen));
+        // oracle independent of the model: the log is the tags of the listed senders, in order
+        let want: Vec<u64> = reqs.iter().filter(|(s, _)| s.map(|x| list.contains(&x)).unwrap_or(false)).map(|(_, t)| *t).collect();
+        if want != seen {
+            run.oracle_fail(json!({"kind": "authorization layer over a history: the service saw other requests than the accepted ones, or in another order", "ops": [op.clone()], "impl": out.clone()}));
+        }
+        run.count("history", if seen.is_empty() { "none-accepted" } else if seen.len() == reqs.len() { "all-accepted" } else { "mixed" });
+        run.op(op, out, true);
+    }
+    Ok(())
+}
+
 pub fn run_c20(run: &mut Run) -> anyhow::Result<()> {
     let mut rng = Rng::new(run.seed);
     let rt = tokio::runtime::Builder::new_multi_thread().worker_threads(4).enable_all().build()?;
@@ -320,6 +394,7 @@ pub fn run_c20(run: &mut Run) -> anyhow::Result<()> {
     if inv != expect_inv {
         run.oracle_fail(json!({"kind": "authorization layer: the wrapped service was invoked a different number of times than the authorizer accepted", "observed": inv, "expected": expect_inv}));
     }
+    auth_histories(run, &mut rng, &rt)?;
     generated_server_stack(run, "auth")?;
     Ok(())
 }
